@@ -110,6 +110,10 @@ func plant(r *rng.R, cs *gen.Case) *fault {
 				// n/0…0 with any number of digits and zeros
 				h.text = randDigits(r, r.Range(1, 4)) + r.Pick("/", " /", "/ ", " / ") + strings.Repeat("0", r.Range(1, 5))
 				h.class = model.EBadPortion
+			} else if d.Type == "portion" && r.Chance(1, 3) {
+				// a percentage above 100 written with any number of decimals
+				h.text = itoa(101+r.Intn(900)) + "." + randDigits(r, r.Range(1, 40)) + "%"
+				h.class = model.EBadPortion
 			}
 			cs.Vars[d.Name] = h.text
 			// (a lenient reader that accepts the text with the value it had is not a C12 violation:
